@@ -656,7 +656,7 @@ def gen_tinylfu(r, cid, nops, opts):
         elif name == "incks":
             lines.append("incks " + " ".join("%d" % r.rng(0, 6) for _ in range(r.rng(0, 4))))
         elif name == "clone":
-            lines.append(r.pick(["clone", "clonefrom", "swap"]) if any(l in ("clone", "clonefrom") for l in lines) else "clone")
+            lines.append(r.pick(["clone", "clonefrom", "swap"]) if any(l in ("clone", "clonefrom") for l in lines) else r.pick(["clone", "clonefrom"]))
     lines.append("end")
     return lines
 
